@@ -20,6 +20,24 @@ from ..rules import cfg_of, guards_dominating
 EM = "model.expression.ExpressionManager"
 
 
+def _origin_param(m, name: str, depth: int = 3):
+    """Which parameter of m a local holds: the parameter itself, or position i of `… = self.auto_promote(p0, p1, …)`
+    (auto_promote returns its arguments, promoted, in order)."""
+    params = [p_ for p_ in m.params() if p_ != "self"]
+    if depth == 0:
+        return None
+    origins = set()
+    for a in walk_no_nested(m.node):
+        if isinstance(a, ast.Assign) and len(a.targets) == 1 and isinstance(a.targets[0], (ast.Tuple, ast.List)) and isinstance(a.value, ast.Call) and call_name(a.value) == "auto_promote":
+            for i, t in enumerate(a.targets[0].elts):
+                if isinstance(t, ast.Name) and t.id == name and i < len(a.value.args) and isinstance(a.value.args[i], ast.Name):
+                    src = a.value.args[i].id
+                    origins.add(src if src in params and src != name else (_origin_param(m, src, depth - 1) if src != name else src))
+    if not origins:
+        return name if name in params else None
+    return next(iter(origins)) if len(origins) == 1 else None
+
+
 def run(idx: Index, rep: Report, tier: str) -> None:
     rep.explanation = __doc__.strip()
     rule1 = "C16.1 T11 ownership"
@@ -94,10 +112,28 @@ def run(idx: Index, rep: Report, tier: str) -> None:
         ok = any(("res is not None" in norm(t.ast) and not outcome) or ("res is None" in norm(t.ast) and outcome) or (" not in self.expressions" in norm(t.ast) and outcome) or (" in self.expressions" in norm(t.ast) and " not in " not in norm(t.ast) and not outcome) for t, outcome in gs)
         rep.check(ok, rule1, "a new node is allocated only on a table miss", cn.loc(n.ast), construct=norm(n.ast)[:90], detail="" if ok else "a node is allocated although an equal one may exist", function=cn.qualname)
         call = [c for c in ast.walk(n.ast) if isinstance(c, ast.Call) and norm(c.func).split(".")[-1] == "FNode"][0]
-        ok = len(call.args) >= 2 and norm(call.args[0]) == "content" and norm(call.args[1]) == "self._next_free_id"
+        from ..dataflow import DefUse as _DU
+
+        _du = _DU(cfg)
+        id_from_counter = len(call.args) >= 2 and (norm(call.args[1]) == "self._next_free_id" or any(ch[:2] == ("self", "_next_free_id") for ch in _du.sources(call.args[1], n)))
+        ok = len(call.args) >= 2 and norm(call.args[0]) == "content" and id_from_counter
         rep.check(ok, rule1, "the node carries the looked-up content and the next free id", cn.loc(call), construct=norm(call), function=cn.qualname)
-    incs = [n for n in cfg.nodes if isinstance(n.ast, ast.AugAssign) and norm(n.ast.target) == "self._next_free_id"]
-    ok = len(incs) == 1 and isinstance(incs[0].ast.op, ast.Add) and norm(incs[0].ast.value) == "1" and all(cfg.path_avoiding(nn, cfg.exit, set(incs)) is None or cfg.path_avoiding(incs[0], nn, set()) is not None for nn in news)
+    def _advances(a):
+        # `self._next_free_id += 1`, or `self._next_free_id = <x> + 1` where <x> holds the counter (`fresh = self._next_free_id`)
+        if isinstance(a, ast.AugAssign):
+            return norm(a.target) == "self._next_free_id" and isinstance(a.op, ast.Add) and norm(a.value) == "1"
+        if isinstance(a, ast.Assign) and len(a.targets) == 1 and norm(a.targets[0]) == "self._next_free_id" and isinstance(a.value, ast.BinOp) and isinstance(a.value.op, ast.Add):
+            l, r = a.value.left, a.value.right
+            one, other = (r, l) if norm(r) == "1" else (l, r) if norm(l) == "1" else (None, None)
+            if one is None:
+                return False
+            if norm(other) == "self._next_free_id":
+                return True
+            return isinstance(other, ast.Name) and any(isinstance(b, ast.Assign) and len(b.targets) == 1 and norm(b.targets[0]) == other.id and norm(b.value) == "self._next_free_id" for b in walk_no_nested(cn.node))
+        return False
+
+    incs = [n for n in cfg.nodes if n.ast is not None and isinstance(n.ast, (ast.AugAssign, ast.Assign)) and (norm(n.ast.target) if isinstance(n.ast, ast.AugAssign) else norm(n.ast.targets[0])) == "self._next_free_id"]
+    ok = len(incs) == 1 and _advances(incs[0].ast) and all(cfg.path_avoiding(nn, cfg.exit, set(incs)) is None or cfg.path_avoiding(incs[0], nn, set()) is not None for nn in news)
     rep.check(ok, rule1, "the id counter advances once per allocated node (ids are distinct)", cn.loc(incs[0].ast) if incs else cn.loc(), construct=norm(incs[0].ast) if incs else "", detail="" if ok else "two nodes can receive the same id", function=cn.qualname)
     stores = [n for n in cfg.nodes if isinstance(n.ast, ast.Assign) and any(isinstance(t, ast.Subscript) and norm(t.value) == "self.expressions" for t in n.ast.targets)]
     ok = bool(stores) and all(norm(s.ast.targets[0].slice) == "content" for s in stores)
@@ -136,6 +172,19 @@ def run(idx: Index, rep: Report, tier: str) -> None:
                 got0 = True
             if any(g.startswith("len(") and g.endswith("== 1") and o for g, o in gs) and norm(n.ast.value).endswith("[0]"):
                 got1 = True
+        if not got1:
+            # the one-argument case may sit in a private helper the method returns through
+            emc = idx.cls(EM)
+            for r_ in walk_no_nested(m.node):
+                if isinstance(r_, ast.Return) and isinstance(r_.value, ast.Call) and isinstance(r_.value.func, ast.Attribute) and norm(r_.value.func.value) == "self" and r_.value.func.attr in emc.methods and r_.value.func.attr.startswith("_"):
+                    h = emc.methods[r_.value.func.attr]
+                    hcfg = cfg_of(h)
+                    hp = [p_ for p_ in h.params() if p_ != "self"]
+                    for hn in hcfg.nodes:
+                        if hn.kind == "return" and hn.ast.value is not None and norm(hn.ast.value).endswith("[0]"):
+                            base = norm(hn.ast.value)[:-3]
+                            if base in hp and (f"len({base}) == 1", True) in path_facts(hcfg, hn):
+                                got1 = True
         rep.check(got0, rule2, f"{name}() with no argument returns {neut.replace('self.', '')}", m.loc(), construct=f"len(args) == 0 -> {neut}", detail="" if got0 else "the documented zero-argument normalisation is missing or returns another constant", function=m.qualname)
         rep.check(got1, rule2, f"{name}(x) returns x", m.loc(), construct="len(args) == 1 -> args[0]", detail="" if got1 else "the documented one-argument normalisation is missing", function=m.qualname)
     m = idx.func(EM + ".Not")
@@ -155,7 +204,8 @@ def run(idx: Index, rep: Report, tier: str) -> None:
         for c in calls:
             nt = next((k.value for k in c.keywords if k.arg == "node_type"), c.args[0] if c.args else None)
             a = next((k.value for k in c.keywords if k.arg == "args"), c.args[1] if len(c.args) > 1 else None)
-            if nt is not None and norm(nt).endswith("OperatorKind." + op) and isinstance(a, ast.Tuple) and [norm(e) for e in a.elts] == ["right", "left"]:
+            params_ = [p_ for p_ in m.params() if p_ != "self"]
+            if nt is not None and norm(nt).endswith("OperatorKind." + op) and isinstance(a, ast.Tuple) and len(a.elts) == 2 and len(params_) >= 2 and all(isinstance(e, ast.Name) for e in a.elts) and [_origin_param(m, e.id) for e in a.elts] == [params_[1], params_[0]]:
                 ok = True
         rep.check(ok, rule2, f"{name}(l, r) is built as {op}(r, l)", m.loc(), construct=norm(calls[0])[:90] if calls else "", detail="" if ok else f"{name} is not the mirrored {op}", function=m.qualname)
     for name, op in (("LE", "LE"), ("LT", "LT")):
@@ -165,6 +215,7 @@ def run(idx: Index, rep: Report, tier: str) -> None:
         for c in calls:
             nt = next((k.value for k in c.keywords if k.arg == "node_type"), None)
             a = next((k.value for k in c.keywords if k.arg == "args"), None)
-            if nt is not None and norm(nt).endswith("OperatorKind." + op) and isinstance(a, ast.Tuple) and [norm(e) for e in a.elts] == ["left", "right"]:
+            params_ = [p_ for p_ in m.params() if p_ != "self"]
+            if nt is not None and norm(nt).endswith("OperatorKind." + op) and isinstance(a, ast.Tuple) and len(a.elts) == 2 and len(params_) >= 2 and all(isinstance(e, ast.Name) for e in a.elts) and [_origin_param(m, e.id) for e in a.elts] == [params_[0], params_[1]]:
                 ok = True
         rep.check(ok, rule2, f"{name}(l, r) keeps its argument order", m.loc(), construct=norm(calls[0])[:90] if calls else "", function=m.qualname)
